@@ -17,8 +17,12 @@
     map is read back from the log at the end (`render`); a slot never written reads back as
     `("", null)` exactly like the zero `OrderedMapItem`;
   * `executor.Errors`, the harness's resolver event log and the writes share one append-only log;
-  * a `ResolvePromise` channel is `promise id`; ids count promises in creation order; the value a
-    resolver will deliver is fixed by the world (`Comp`), so the channel carries only ok/err.
+  * a `ResolvePromise` channel is named by the response path of the field invocation that made it
+    (`promise id res`, `id : Path`); what it will deliver is fixed by the world when the resolver
+    runs, so the node carries that result `res` and the store only records which channels
+    currently hold their message (`chan`) and which promises are still unfulfilled, in creation
+    order (`outstanding`); the value itself is described by the plan (`Comp`), so `res` is only
+    ok/err.
 -/
 namespace ApiFu.C02
 
@@ -97,15 +101,9 @@ inductive Entry where
   | fulfil (p : Path)                                     -- the idle handler (or a `pre` resolver) delivered a promise
   deriving Repr, Inhabited
 
-structure Promise where
-  id : Nat
-  path : Path
-  res : Res
-  deriving Repr, Inhabited
-
 structure Store where
-  chan : List (Nat × Res) := []        -- buffered channel contents not yet received
-  outstanding : List Promise := []     -- created, not yet fulfilled (creation order)
+  chan : List Path := []               -- channels that hold their message (sent, not yet received)
+  outstanding : List Path := []        -- promises created and not yet fulfilled (creation order)
   nextId : Nat := 0                    -- promises created so far
   log : List Entry := []
   rounds : Nat := 0                    -- idle-handler calls so far
@@ -113,14 +111,6 @@ structure Store where
   deriving Repr, Inhabited
 
 def Store.push (S : Store) (e : Entry) : Store := { S with log := S.log ++ [e] }
-
-def chanTake (id : Nat) : List (Nat × Res) → Option (Res × List (Nat × Res))
-  | [] => none
-  | (j, r) :: rest =>
-    if j = id then some (r, rest)
-    else match chanTake id rest with
-      | some (r', rest') => some (r', (j, r) :: rest')
-      | none => none
 
 /-! ## Futures -/
 
@@ -136,7 +126,7 @@ inductive OkFn where
 
 inductive Fut where
   | ready (r : Res)
-  | promise (id : Nat)                             -- future.New(select on the channel)
+  | promise (id : Path) (res : Res)                -- future.New(select on the channel); `res`: what it will receive
   | map (fn : MapFn) (f : Fut)
   | mapOk (fn : OkFn) (f : Fut)
   | mapOkToAny (f : Fut)
@@ -265,12 +255,12 @@ def execField (nn : Bool) (mode : Mode) (rerr : Option String) (c : Comp) (itemP
     | none => completed S0
   | .promise =>
     let res : Res := match rerr with | some msg => .err ⟨[], msg⟩ | none => .ok .null
-    (.thenK nn c itemPath (.promise S0.nextId) none,
-     { S0 with nextId := S0.nextId + 1, outstanding := S0.outstanding ++ [⟨S0.nextId, itemPath, res⟩] })
+    (.thenK nn c itemPath (.promise itemPath res) none,
+     { S0 with nextId := S0.nextId + 1, outstanding := S0.outstanding ++ [itemPath] })
   | .pre =>
     let res : Res := match rerr with | some msg => .err ⟨[], msg⟩ | none => .ok .null
-    (.thenK nn c itemPath (.promise S0.nextId) none,
-     { (S0.push (.fulfil itemPath)) with nextId := S0.nextId + 1, chan := S0.chan ++ [(S0.nextId, res)] })
+    (.thenK nn c itemPath (.promise itemPath res) none,
+     { (S0.push (.fulfil itemPath)) with nextId := S0.nextId + 1, chan := S0.chan ++ [itemPath] })
 
 mutual
   /-- `completeValue(fieldType, fields, result, path)`; `nn` says whether fieldType is NonNull. -/
@@ -326,7 +316,7 @@ mutual
   def construct (t : Fut) (S : Store) : Fut × Store :=
     match t with
     | .ready r => (.ready r, S)
-    | .promise id => (.promise id, S)
+    | .promise id res => (.promise id res, S)
     | .map fn t => let (f, S1) := construct t S; mkMap fn f S1
     | .mapOk fn t => let (f, S1) := construct t S; mkMapOk fn f S1
     | .mapOkToAny t => let (f, S1) := construct t S; (mkMapOkToAny f, S1)
@@ -372,7 +362,7 @@ end
 mutual
   def Fut.weight : Fut → Nat
     | .ready _ => 1
-    | .promise _ => 1
+    | .promise _ _ => 1
     | .map _ f => 1 + f.weight
     | .mapOk _ f => 1 + f.weight
     | .mapOkToAny f => 1 + f.weight
@@ -398,11 +388,10 @@ mutual
   def poll (f : Fut) (S : Store) : Fut × Store × Option Res :=
     match f with
     | .ready r => (.ready r, S, some r)
-    | .promise id =>
+    | .promise id res =>
       -- select { case r := <-ch: … default: not ready }
-      match chanTake id S.chan with
-      | some (r, rest) => (.ready r, { S with chan := rest }, some r)
-      | none => (.promise id, S, none)
+      if id ∈ S.chan then (.ready res, { S with chan := S.chan.erase id }, some res)
+      else (.promise id res, S, none)
     | .map fn g =>
       match poll g S with
       | (_, S1, some r) => let (r', S2) := applyMap fn r S1; (.ready r', S2, some r')
@@ -515,11 +504,11 @@ def picks (mask : Option Nat) (n : Nat) : List Bool :=
       | k + 1 => true :: List.replicate k false
 
 /-- Deliver the picked promises (creation order): `ch <- result`, event `fulfil`. -/
-def deliver : List Promise → List Bool → Store → Store
+def deliver : List Path → List Bool → Store → Store
   | [], _, S => S
   | p :: ps, [], S => deliver ps [] { S with outstanding := S.outstanding ++ [p] }
   | p :: ps, b :: bs, S =>
-    if b then deliver ps bs { (S.push (.fulfil p.path)) with chan := S.chan ++ [(p.id, p.res)] }
+    if b then deliver ps bs { (S.push (.fulfil p)) with chan := S.chan ++ [p] }
     else deliver ps bs { S with outstanding := S.outstanding ++ [p] }
 
 /-- One call of the harness's IdleHandler. -/
